@@ -151,6 +151,10 @@ class Events(core.Scenario):
             i = kinds.index('disconnect')
             after = evA[i + 1:]
             after = [e for e in after if e[0] != 'disconnect']
+            # a message whose request had been received before the disconnect event fired may
+            # still reach its handler afterwards (DESIGN S4); only later arrivals count
+            bad_step = [s for n, s, t in self.inj if n == 'post_bad']
+            after = [e for e in after if not (e[0] == 'message' and e[2] == 'ok' and bad_step and bad_step[0] <= evA[i][4])]
             if after:
                 self.flag('event_after_disconnect', 'events after the disconnect event: %r' % [e[:3] for e in after], trigger=trig)
             ev = evA[i]
